@@ -18,6 +18,7 @@ var c02Steps = []gen.Step{
 	gen.StStar(), gen.StSlice(gen.I(1), nil, nil), gen.StSlice(nil, nil, gen.I(-1)),
 	gen.StMultiList(gen.Field("a"), gen.Field("b")), gen.StMultiHash([]gen.Key{{Name: "x"}}, []*gen.Expr{gen.Field("a")}),
 	gen.StFunc("type", gen.Current()), gen.StFunc("to_string", gen.Current()), gen.StFunc("not_null", gen.Field("a"), gen.Raw("z")),
+	gen.StQField("a"),
 }
 
 // c02Term wraps a chain in a terminator context.
@@ -74,7 +75,7 @@ func c02Count(maxSteps int) int {
 
 func c02(r *mon.Run) {
 	maxSteps := tierPick(r, 3, 4)
-	r.Rule = "exhaustive: every chain of 1..K steps (K=3 quick, 4 thorough) over 16 steps {.a .b [0] [-1] [*] [] [?a] [?@] .* [1:] [::-1] .[a,b] .{x:a} .type(@) .to_string(@) .not_null(a,'z')} x heads {a, @, bare} x terminators {end, | [0], (…).a, (…)[0], || b, == b} x a 35-document universe (empty / null-containing / heterogeneous / nested arrays and objects); " +
+	r.Rule = "exhaustive: every chain of 1..K steps (K=3 quick, 4 thorough) over 17 steps {.a .\"a\" .b [0] [-1] [*] [] [?a] [?@] .* [1:] [::-1] .[a,b] .{x:a} .type(@) .to_string(@) .not_null(a,'z')} x heads {a, @, bare} x terminators {end, | [0], (…).a, (…)[0], || b, == b} x a 35-document universe (empty / null-containing / heterogeneous / nested arrays and objects); " +
 		"plus seeded random nested projections with filters and slices on random typed documents. Oracle: ref.RefSet with member-order nondeterminism as a result set. Non-trivial = distinct (expression, document) with a projection whose expected result is a non-empty array, or null because the left side has the wrong type (counted separately)."
 	r.Exhaustive = true
 	r.Floor = 5000
